@@ -236,6 +236,8 @@ def write_replay(prop_id, payload):
 
 
 def write_evidence(prop_id, ev):
+    if os.environ.get("VERIF_NO_EVIDENCE"):          # set by harness/reapply.sh while a seeded change is applied
+        return
     os.makedirs(os.path.join(VERIF, "evidence"), exist_ok=True)
     with open(os.path.join(VERIF, "evidence", "%s.json" % prop_id), "w") as f:
         json.dump(ev, f, indent=1, default=str)
